@@ -21,10 +21,12 @@ def main():
     import radioactivedecay as rd
     import radioactivedecay.inventory as invmod
     captured = {}
-    def fake_decay_graph(**kw):
-        captured.clear(); captured.update(kw)
-        return None, None
-    invmod.decay_graph = fake_decay_graph
+    real_decay_graph = invmod.decay_graph
+    def recording_decay_graph(**kw):
+        captured.clear(); captured.update({k: (np.array(v, copy=True) if isinstance(v, np.ndarray) else v) for k, v in kw.items()})
+        return real_decay_graph(**kw)
+    invmod.decay_graph = recording_decay_graph
+    import matplotlib.pyplot as plt
     out = []
     for c in json.load(sys.stdin):
         r = {}
@@ -32,6 +34,19 @@ def main():
             cls = rd.InventoryHP if c["cls"] == "InventoryHP" else rd.Inventory
             inv = cls({k: float.fromhex(v) for k, v in c["contents"].items()}, "num")
             uc = inv._get_unit_converter()
+            # an earlier history on the same object: the same series / plot, then an in-place change
+            for op in c.get("pre", []):
+                if op[0] == "series":
+                    inv.decay_time_series(float.fromhex(c["tmax"]), time_units=c["tunit"], time_scale=c["scale"], decay_units=op[1], npoints=c["npoints"])
+                elif op[0] == "plot":
+                    f0, _ = inv.plot(float.fromhex(c["tmax"]), xunits=c["tunit"], xscale=c["scale"], yunits=op[1], npoints=c["npoints"])
+                    plt.close(f0)
+                elif op[0] == "add":
+                    inv.add({k: float.fromhex(v) for k, v in op[1].items()}, "num")
+                elif op[0] == "subtract":
+                    inv.subtract({k: float.fromhex(v) for k, v in op[1].items()}, "num")
+                elif op[0] == "remove":
+                    inv.remove(op[1])
             tp = np.array([float.fromhex(x) for x in c["explicit"]]) if c.get("explicit") else float.fromhex(c["tmax"])
             kw = dict(time_units=c["tunit"], time_scale=c["scale"], decay_units=c["kind"], npoints=c["npoints"])
             times, data = inv.decay_time_series(tp, **kw)
@@ -55,11 +70,16 @@ def main():
                           display=c["display"], order=c["order"], xmin=float.fromhex(c["xmin"]), ymin=float.fromhex(c["ymin"]))
                 if c.get("ymax"):
                     pk["ymax"] = float.fromhex(c["ymax"])
-                inv.plot(float.fromhex(c["tmax"]), **pk)
+                fig, ax = inv.plot(float.fromhex(c["tmax"]), **pk)
+                lines = [[str(ln.get_label()), [hx(v) for v in ln.get_xdata()], [hx(v) for v in ln.get_ydata()]] for ln in ax.get_lines()]
+                axinfo = {"xlabel": ax.get_xlabel(), "ylabel": ax.get_ylabel(), "xscale": ax.get_xscale(), "yscale": ax.get_yscale(),
+                          "legend": [t.get_text() for t in ax.get_legend().get_texts()] if ax.get_legend() else None}
+                plt.close(fig)
                 r["plot"] = {"time_points": [hx(t) for t in captured["time_points"]], "nuclides": list(captured["nuclides"]),
                              "ydata": [[hx(v) for v in row] for row in captured["ydata"]], "ylabel": captured["ylabel"],
                              "ylimits": [hx(v) for v in captured["ylimits"]], "xunits": captured["xunits"],
-                             "display": sorted(captured["display"]), "xscale": captured["xscale"], "yscale": captured["yscale"]}
+                             "display": sorted(captured["display"]), "xscale": captured["xscale"], "yscale": captured["yscale"],
+                             "lines": lines, "axes": axinfo}
                 pref = []
                 for t in captured["time_points"]:
                     d = readout(inv.decay(t, c["tunit"]), c["kind"], uc)
